@@ -90,12 +90,14 @@ func (prom *Prometheus) Query(ctx context.Context, expr string) (*QueryResult, e
 	defer prom.locker.unlock(key)
 
 	resultChan := make(chan queryResult)
+	verifTrace("enq", key, resultChan)
 	prom.queries <- queryRequest{
 		query:  instantQuery{prom: prom, ctx: ctx, expr: expr, timestamp: time.Now()},
 		result: resultChan,
 	}
 
 	result := <-resultChan
+	verifTrace("got", key, resultChan)
 	if result.err != nil {
 		return nil, QueryError{err: result.err, msg: decodeError(result.err)}
 	}
